@@ -1615,4 +1615,43 @@ class C01(Prop):
         return impl.startswith("PAIRS")
 
 
-PROPS = {p.id: p for p in [C06(), C19(), C11(), C16(), C13(), C10(), C15(), C09(), C12(), C14(), C07(), C17(), C05(), C18(), C04(), C08(), C03(), C01()]}
+class C02(Prop):
+    id = "C02"
+    gens = []
+    header = 99
+    n_quick = 400
+    n_thorough = 12000
+    design_ref = "DESIGN.md §4 C02"
+    assumptions = [
+        "proved on models: on the usage fixpoint (the C07 model of GlobalUsageAnalysis::recurse) a function receives a global exactly when the global is threaded and the function reaches it, every call's appended arguments are parameters of the caller, call and signature append the same sorted list; the trampoline in front of out / inout functions gives references copy-in / copy-out behaviour for every body, every aliasing of the arguments and every store (with a witness that references alone do not)",
+        "observed on the implementation: the Metal text is the HLSL text (tied to the typed IR by C01) token by token, differences being accepted only under the rules of tools/c02ref.py — `metal::` names and the renames read from the two exporters' tables, `constant` for `static const`, dropped loop attributes, removed declarations of threaded globals, reference parameters, the tagged overload plus a trampoline of a fixed shape, appended parameters / arguments, `(S)0` as an aggregate of zeros, `.x` for vector-to-scalar casts — and each rule is checked against facts computed from the IR independently of the exporter (which globals are threaded, reachability per function, out / inout positions, defaults, which functions are called)",
+        "outside the rules (counted, not judged): programs with resources, semantics or entry points, and functions that use an intrinsic the Metal exporter lowers by a helper, an operator or as_type<> (mul, lerp, asfloat, sign, select, ...); the value semantics of the metal:: functions themselves is not modelled",
+    ]
+
+    def kind(self, case):
+        return case.split()[1].split(":")[0]
+
+    def comparable(self, case, impl, model):
+        return False
+
+    def oracle(self, case, impl, model=None):
+        import c02ref
+        return c02ref.check(case, impl)
+
+    def known_class(self, case, impl, model):
+        import c02ref
+        why = c02ref.check(case, impl) or ""
+        if "has default arguments followed by the threaded globals" in why or "default argument(s) out and appends the globals" in why:
+            return "default-argument-before-threaded-global"
+        if re.search(r"receives the globals \[.*\]", why):
+            m = re.search(r"receives the globals (\[[^\]]*\])", why)
+            names = re.findall(r"'(\w+)'", m.group(1)) if m else []
+            if len(names) != len(set(names)):
+                return "threaded-globals-share-a-short-name"
+        return None
+
+    def nontrivial(self, case, impl):
+        return impl.startswith("M2")
+
+
+PROPS = {p.id: p for p in [C06(), C19(), C11(), C16(), C13(), C10(), C15(), C09(), C12(), C14(), C07(), C17(), C05(), C18(), C04(), C08(), C03(), C01(), C02()]}
